@@ -141,8 +141,19 @@ pub fn c07_module(p: &Placed, server: &mut Server) -> ModResult {
                 dn.remove(&decl.name);
                 r.evaluations += 1;
                 if free != dn {
-                    let known_inline_default = td.all_fields().iter().any(|f| f.inline || f.flatten);
-                    r.failures.push(json!({"signature": if known_inline_default { "import-unused-default-of-inlined-generic" } else { "dependencies-differ-from-declaration" }, "message": format!("`{}`: the declarations mention {:?}, dependencies() reports {:?}\ndecl: {}\ndecl_concrete: {}", label(*t), free, dn, decls[0], okstr(info, "decl_concrete").unwrap_or("")), "case": case_of(p, json!({}))}));
+                    // listed finding: a default that mentions another parameter (`U = T`, `U = Vec<T>`)
+                    // is evaluated at the arguments, which makes the argument a dependency
+                    fn mentions_param(t: &TyExpr) -> bool {
+                        match t {
+                            TyExpr::Param(_) => true,
+                            TyExpr::User(_, a) | TyExpr::Lib(_, a) | TyExpr::Tuple(a) => a.iter().any(mentions_param),
+                            TyExpr::Option(x) | TyExpr::Vec(x) | TyExpr::Array(x, _) | TyExpr::Wrap(_, x) => mentions_param(x),
+                            TyExpr::Map(k, v, _) => mentions_param(k) || mentions_param(v),
+                            _ => false,
+                        }
+                    }
+                    let default_over_param = td.params.iter().any(|p| p.default.as_ref().map_or(false, mentions_param)) && dn.is_superset(&free);
+                    r.failures.push(json!({"signature": if default_over_param { "argument-becomes-dependency-through-default-over-parameter" } else { "dependencies-differ-from-declaration" }, "message": format!("`{}`: the declarations mention {:?}, dependencies() reports {:?}\ndecl: {}\ndecl_concrete: {}", label(*t), free, dn, decls[0], okstr(info, "decl_concrete").unwrap_or("")), "case": case_of(p, json!({}))}));
                     break;
                 }
             }
